@@ -47,6 +47,9 @@ func (g *gen) str() string {
 }
 
 func (g *gen) key() string {
+	if g.r.Chance(0.06) {
+		return ""
+	}
 	if g.r.Chance(0.85) {
 		return keyPool[g.r.Intn(len(keyPool))]
 	}
